@@ -54,7 +54,9 @@ static void * body(void * a) {
       case 0: ap = 0; break;
       case 1: attr.child_first = 1; break;
       case 2: attr.child_first = 0; break;
-      case 3: myth_thread_attr_setstacksize(&attr, 4096 << ((r >> 16) % 5)); break;
+      case 3: {   /* custom stack sizes: page multiples and sizes that are not (rounded up by the library) */
+        static const size_t szs[] = { 4096, 8192, 16384, 65536, 10000, 5000, 100000, 12289, 40961 };
+        myth_thread_attr_setstacksize(&attr, szs[(r >> 16) % 9]); break; }
       case 4: break;                         /* attr as initialised over poisoned memory */
       case 5: myth_thread_attr_setdetachstate(&attr, 1); cdet[c] = 1; break;
       case 6: break;
